@@ -156,6 +156,9 @@ func decodeID(raw asn1ID) (TRCID, error) {
 	case raw.Serial < raw.Base:
 		return TRCID{}, serrors.New("base greater than serial",
 			"base", raw.Base, "serial", raw.Serial)
+	case raw.Base < 1:
+		// Negative numbers would wrap around to huge unsigned versions.
+		return TRCID{}, serrors.New("invalid base number", "value", raw.Base)
 	}
 	id := TRCID{
 		ISD:    addr.ISD(raw.ISD),
